@@ -23,3 +23,38 @@ Proof.
   destruct (nth_error (upd _ si (upd _ sj s)) (N.to_nat ((j + si) mod 256))) as [b|]; [|reflexivity].
   destruct (nth_error (upd _ si (upd _ sj s)) (N.to_nat ((a + b) mod 256))) as [v|]; reflexivity.
 Qed.
+
+(* ---- Rc4::apply_keystream: the loop body translated from src/rc4.rs (it calls the translated output
+   step), folded over the slice, is the model's apply_keystream ---- *)
+From WS Require Import lib.Calls spec.Rc4 proofs.Rc4.
+Definition rc4_triple (r : rc4) : list N * N * N := (st r, ri r, rj r).
+Definition ks_view (r : nres (rc4 * list N)) : option ((list N * N * N) * list N) :=
+  match r with Ok (r', out) => Some (rc4_triple r', out) | _ => None end.
+
+Lemma rc4_apply_keystream_translated : forall data r,
+  slice_loop tr_rc4_apply_keystream_step (rc4_triple r) data = ks_view (apply_keystream r data).
+Proof.
+  induction data as [|x xs IH]; intros r; [reflexivity|].
+  cbn [slice_loop apply_keystream]. unfold tr_rc4_apply_keystream_step at 1, rc4_triple at 1.
+  rewrite rc4_prga_translated.
+  destruct (pseudo_random_generation r) as [[r' v]|]; [|reflexivity].
+  cbn [prga_view]. change (st r', ri r', rj r') with (rc4_triple r'). rewrite IH.
+  destruct (apply_keystream r' xs) as [[r'' out]|e|]; [reflexivity|destruct e|reflexivity].
+Qed.
+
+(* property level, about the translated functions: from a state produced by the key schedule for a
+   non-empty key, a prefix and then any data come out as the RC4 keystream of that key at that offset,
+   xored in; in particular calls of any lengths chain *)
+Theorem rc4_source_stream : forall key, key <> [] ->
+  exists r0, rc4_new key = Ok r0 /\
+  forall pre data, exists t1 t2,
+    slice_loop tr_rc4_apply_keystream_step (rc4_triple r0) pre = Some (t1, rc4_crypt key 0 pre) /\
+    slice_loop tr_rc4_apply_keystream_step t1 data = Some (t2, rc4_crypt key (length pre) data).
+Proof.
+  intros key Hne. destruct (rc4_refines_spec key Hne) as (r0 & E0 & _ & H).
+  exists r0. split; [exact E0|]. intros pre data.
+  destruct (H pre data) as (r1 & r2 & E1 & _ & _ & E2 & _ & _).
+  exists (rc4_triple r1), (rc4_triple r2). split.
+  - rewrite rc4_apply_keystream_translated, E1. reflexivity.
+  - rewrite rc4_apply_keystream_translated, E2. reflexivity.
+Qed.
